@@ -29,7 +29,7 @@ def accessGuarded (a : Gen.TableAccess) : Bool :=
   | .R => !a.isWrite
   | .W => true
 
-/-- Every read of e.values / e.types in env/*.go happens under RLock or Lock, every write under Lock. -/
+/-- Every read of e.values / e.types / e.externalLookup in env/*.go happens under RLock or Lock, every write under Lock. -/
 theorem env_accesses_guarded : Gen.envAccesses.all accessGuarded = true := by decide
 
 /-- the methods the property is about all have a region (none of them touches a table unlocked) -/
